@@ -1955,10 +1955,20 @@ class Transaction(object):
         if lock_script.startswith(b'\x6a'):
             if value != 0:
                 raise TransactionError("Output value for OP_RETURN script must be 0")
-        self.outputs.append(Output(value=int(value), address=address, public_hash=public_hash,
-                                   public_key=public_key, lock_script=lock_script, spent=spent, output_n=output_n,
-                                   encoding=encoding, spending_txid=spending_txid, spending_index_n=spending_index_n,
-                                   strict=strict, change=change, network=self.network.name))
+        output = Output(value=int(value), address=address, public_hash=public_hash,
+                        public_key=public_key, lock_script=lock_script, spent=spent, output_n=output_n,
+                        encoding=encoding, spending_txid=spending_txid, spending_index_n=spending_index_n,
+                        strict=strict, change=change, network=self.network.name)
+        if output.network.name != self.network.name:
+            # Address or HDKey object with its own network: only accept if its address prefix is also used by the
+            # network of this transaction
+            addr_obj = output.address_obj
+            if addr_obj is None or addr_obj.prefix not in [self.network.prefix_address, self.network.prefix_address_p2sh,
+                                                           self.network.prefix_bech32]:
+                raise TransactionError("Network for output address %s is different from transaction network %s" %
+                                       (output.address, self.network.name))
+            output.network = self.network
+        self.outputs.append(output)
         return output_n
 
     def merge_transaction(self, transaction):
